@@ -111,14 +111,16 @@ Proof.
   - exact (lg_tok_new is_space is_digit H1 H2 H3 tk d cr sel L true).
 Qed.
 
-(* cycle/task[:sel] : the same, PROVIDED the cycle has at least two characters *)
+(* cycle/task[:sel] : the same, for every valid legacy cycle — including the
+   one-character cycles of integer cycling ("1/foo"), which the implementation
+   did not recognise before /repo commit 26dc1a0 (LEGACY_CYCLE_SLASH_TASK needed
+   \d[^~.:/\n]+ ; the witness "1/foo" stays in the stream's corpus). *)
 Theorem c23_legacy_slash_upgrade : forall (is_space is_digit : Z -> bool),
   is_space 42 = false ->
   (forall c, is_ascii_digit c = true -> is_space c = false) ->
   (forall c, is_digit c = true -> l_cyc c = true) ->
   forall tk d cr sel w,
   legacy_ok is_space is_digit tk d cr sel ->
-  cr <> [] ->
   let lt := legacy_tokens tk (d :: cr) sel in
   let old := slash_form tk (d :: cr) sel in
   legacy_tokenise is_space is_digit old = Some lt
@@ -127,34 +129,23 @@ Theorem c23_legacy_slash_upgrade : forall (is_space is_digit : Z -> bool),
   /\ tokenise is_space false (47 :: 47 :: old) = Some lt
   /\ tokenise is_space true old = Some lt.
 Proof.
-  intros is_space is_digit H1 H2 H3 tk d cr sel w L Hcr lt old.
-  pose proof (lg_tokenise_slash is_space is_digit H3 tk d cr sel L Hcr) as Ht.
+  intros is_space is_digit H1 H2 H3 tk d cr sel w L lt old.
+  pose proof (lg_tokenise_slash is_space is_digit H3 tk d cr sel L) as Ht.
   destruct (lg_upgrade is_space is_digit tk d cr sel L old w Ht) as [Ha Hr].
   repeat split; auto.
   - exact (lg_tok_new is_space is_digit H1 H2 H3 tk d cr sel L false).
   - exact (lg_tok_new is_space is_digit H1 H2 H3 tk d cr sel L true).
 Qed.
 
-(* The full statement of the property for the cycle/task form — every valid
-   legacy cycle/task identifier is recognised — is FALSE of the faithful model:
-   the implementation's LEGACY_CYCLE_SLASH_TASK needs \d[^~.:/\n]+ , so a
-   one-character cycle ("1/a", the usual integer-cycling case) is not
-   recognised and upgrade_legacy_ids leaves the ids unchanged (finding
-   idstr:legacy-slash-one-char-cycle; proposed_fixes/C23-legacy-slash-one-char-cycle.diff). *)
-Definition c23_legacy_slash_upgrade_full (is_space is_digit : Z -> bool) : Prop :=
+(* The full statement for the cycle/task form: EVERY valid legacy cycle/task
+   identifier is recognised (was refuted by "1/a" before commit 26dc1a0). *)
+Theorem c23_legacy_slash_upgrade_full : forall (is_space is_digit : Z -> bool),
+  (forall c, is_digit c = true -> l_cyc c = true) ->
   forall tk d cr sel,
   legacy_ok is_space is_digit tk d cr sel ->
   legacy_tokenise is_space is_digit (slash_form tk (d :: cr) sel)
   = Some (legacy_tokens tk (d :: cr) sel).
-
-Theorem c23_legacy_slash_one_char_refuted :
-  ~ c23_legacy_slash_upgrade_full is_space_tbl is_digit_tbl.
-Proof.
-  intros H. specialize (H [97] 49 [] None).    (* "1/a" *)
-  assert (L : legacy_ok is_space_tbl is_digit_tbl [97] 49 [] None).
-  { constructor; cbn; auto; try split; vm_compute; reflexivity. }
-  specialize (H L). vm_compute in H. discriminate H.
-Qed.
+Proof. exact lg_tokenise_slash. Qed.
 
 (* ---------- the hypotheses hold of the running CPython's tables ---------- *)
 Lemma ranges_disjoint_from lo hi rs :
@@ -213,7 +204,7 @@ Example c23_ex_gap :
   detokenise false false t = DOk [126;117;47;42;47;47;49]
   /\ workflow (canon false t) = Some [42].
 Proof. split; vm_compute; reflexivity. Qed.
-(* legacy: "foo.1:s" and "10/foo:s" are recognised and upgraded *)
+(* legacy: "foo.1:s", "10/foo" and "1/foo" are recognised and upgraded *)
 Example c23_ex_legacy :
   legacy_ok is_space_tbl is_digit_tbl [102;111;111] 49 [] (Some [115])
   /\ upgrade_legacy_ids is_space_tbl is_digit_tbl false [[119]; [102;111;111;46;49;58;115]]
@@ -221,7 +212,7 @@ Example c23_ex_legacy :
   /\ upgrade_legacy_ids is_space_tbl is_digit_tbl false [[119]; [49;48;47;102;111;111]]
      = [[119]; [47;47;49;48;47;102;111;111]]
   /\ upgrade_legacy_ids is_space_tbl is_digit_tbl false [[119]; [49;47;102;111;111]]
-     = [[119]; [49;47;102;111;111]].     (* the finding: "1/foo" is left alone *)
+     = [[119]; [47;47;49;47;102;111;111]].   (* "1/foo": one-character cycle (fixed in 26dc1a0) *)
 Proof.
   split; [constructor; cbn; auto; try split; vm_compute; reflexivity|].
   repeat split; vm_compute; reflexivity.
